@@ -23,7 +23,7 @@ func init() {
 				"(once) guard/marker rule: the state the skip gate READS must intersect the state the punishment WRITES, otherwise a second evidence entry against the same validator in one block is punished again (found: the gate read only Status and list membership, which the punishment never changes — repaired by also skipping validators already marked to-drop). " +
 				"NOT decided: the 5 % arithmetic and its rounding, that Tendermint's vote info is truthful.",
 			Assumptions: stdAssumptions,
-			Rules:       []string{"C18.jail", "C18.absent", "C18.byz", "C18.once", "C18.window", "C18.fresh"},
+			Rules:       []string{"C18.jail", "C18.absent", "C18.byz", "C18.once", "C18.window", "C18.fresh", "C18.allstakes"},
 		},
 		Run: runC18,
 	})
@@ -109,6 +109,7 @@ func constOf(c *core.Ctx, pkg, name string) (int64, bool) {
 
 func runC18(c *core.Ctx) {
 	defer checkAbsentWindowPersisted(c, "C18.window")
+	defer checkSparseStakes(c, "C18.allstakes")
 	defer func() {
 		// records built per iteration in the consensus packages (the validator list of
 		// SetNewValidators with its per-validator absence window and accrued reward is one)
@@ -466,4 +467,66 @@ func checkAbsentWindowPersisted(c *core.Ctx, rule string) {
 		}
 	}
 	c.Floor(rule, n, 1, "AbsentTimes.SetIndex sites in the validator model")
+}
+
+// checkSparseStakes — C18.allstakes. A candidate's stakes live in a fixed array of slots, and a
+// slot is emptied (set to nil) when its owner unbonds everything — the array is sparse. Code that
+// has to reach *every* stake (slashing on double signing, re-freezing) therefore skips empty slots
+// and goes on; a loop over the slots that *ends* at the first empty one leaves every stake behind
+// the hole unslashed. Decided for the candidates module: no loop is left on a nil test of an
+// element of the `stakes` array.
+func checkSparseStakes(c *core.Ctx, rule string) {
+	n, bad := 0, 0
+	for _, fn := range c.SrcFuncs(core.PkgState + "/candidates") {
+		if fn.Blocks == nil {
+			continue
+		}
+		for _, b := range fn.Blocks {
+			iff := core.IfOf(b)
+			if iff == nil || !core.InCycle(b) {
+				continue
+			}
+			// does the condition test a stakes slot for nil?
+			testsSlot := core.DependsOn(iff.Cond, func(y ssa.Value) bool {
+				ld, ok := y.(*ssa.UnOp)
+				if !ok || ld.Op != token.MUL {
+					return false
+				}
+				ia, ok := ld.X.(*ssa.IndexAddr)
+				if !ok {
+					return false
+				}
+				fa, ok := ia.X.(*ssa.FieldAddr)
+				return ok && fieldNameOf(fa) == "stakes"
+			})
+			if !testsSlot {
+				continue
+			}
+			bin, ok := iff.Cond.(*ssa.BinOp)
+			if !ok || !isNil(bin.Y) {
+				continue
+			}
+			n++
+			// the loop of b
+			loop := map[*ssa.BasicBlock]bool{b: true}
+			for x := range core.ReachFrom(b, nil) {
+				if core.ReachFrom(x, nil)[b] {
+					loop[x] = true
+				}
+			}
+			// the "is nil" edge must stay in the loop (continue), not leave it
+			nilEdge := b.Succs[0]
+			if bin.Op == token.NEQ {
+				nilEdge = b.Succs[1]
+			}
+			if !loop[nilEdge] {
+				bad++
+				c.Bad(rule, fmt.Sprintf("%s/slot-test#%d", core.ShortFn(fn), n), iff.Cond.Pos(), "the loop over the stake slots is left when a slot is empty: slots are emptied by full unbonds, so the stakes behind the first hole are never reached (not slashed, not unbonded)")
+			}
+		}
+	}
+	if bad == 0 {
+		c.OK(rule, "loops", token.NoPos, fmt.Sprintf("%d nil tests of stake slots inside loops: each continues with the next slot", n))
+	}
+	c.Floor(rule, n, 3, "nil tests of stake slots inside loops of the candidates module")
 }
